@@ -210,13 +210,13 @@ class C25(Property):
             if kind == "shell":
                 conn = MiniConnector()
                 try:
-                    return await conn.run(mini_location(conn), command, environment=env, workdir=wd, capture_output=True, timeout=15)
+                    return await conn.run(mini_location(conn), command, environment=env, workdir=wd, capture_output=True, timeout=90)
                 finally:
                     await conn.undeploy(False)
             if kind == "local":
                 conn = LocalConnector("local", ctx.scratch)
                 loc = mini_location(MiniConnector())
-                return await conn.run(loc, command, environment=env, workdir=wd, capture_output=True, timeout=15)
+                return await conn.run(loc, command, environment=env, workdir=wd, capture_output=True, timeout=90)
             if kind == "qm":
                 # what QueueManagerConnector.run submits: create_command, then the service template
                 cstr = sfu.create_command("QueueManagerConnector", command, environment=env, workdir=wd)
@@ -228,12 +228,12 @@ class C25(Property):
                     f.write(script)
                 proc = await asyncio.create_subprocess_exec("sh", path, stdout=asyncio.subprocess.PIPE, stderr=asyncio.subprocess.STDOUT,
                                                             stdin=asyncio.subprocess.DEVNULL)
-                out, _ = await asyncio.wait_for(proc.communicate(), 15)
+                out, _ = await asyncio.wait_for(proc.communicate(), 90)
                 return out.decode("utf-8", "replace").strip(), proc.returncode
             raise ValueError(kind)
 
         try:
-            out, status = run_watchdog(go, 30)
+            out, status = run_watchdog(go, 120)
             res["status"] = status
             res["raw"] = out[-300:]
         except Hang as e:
@@ -562,9 +562,9 @@ class C25(Property):
                 conn = MiniConnector()
                 loc = mini_location(conn)
                 try:
-                    a = await conn.run(loc, ["sh", script], capture_output=True, timeout=30)
+                    a = await conn.run(loc, ["sh", script], capture_output=True, timeout=120)
                     try:
-                        b = await conn.run(loc, ["sh", script], capture_output=True, timeout=30, job_name="fresh")
+                        b = await conn.run(loc, ["sh", script], capture_output=True, timeout=120, job_name="fresh")
                     except UnicodeDecodeError as e:
                         b = ("exc:UnicodeDecodeError", None)
                     return a, b
@@ -574,7 +574,7 @@ class C25(Property):
             ctx.case(sample, ("output", data[:64], len(data), rc) if len(data) > 1 else None, f"output:{'utf8' if valid else 'binary'}")
             replay = {"op": "output", "data_hex": data.hex() if len(data) <= 4096 else None, "size": len(data), "rc": rc}
             try:
-                a, b = run_watchdog(go, 90)
+                a, b = run_watchdog(go, 300)
             except Hang as e:
                 ctx.fail("output:hang", f"{sample}: {e}", replay)
                 continue
